@@ -144,20 +144,14 @@ func genExactCase(r *wire.Rng, n int, w *wire.Out) {
 	w.Line("case", fmt.Sprint(n), "exact", t.Token())
 	prim := map[string]Obj{}
 	uniq := func(o Obj) Obj {
-		var keep []string
-		for _, k := range o.Outs {
-			taken := false
+		return keepClaims(t, o, func(k string) bool {
 			for q, other := range prim {
-				if q != o.ResourceName() && contains(other.Outs, k) {
-					taken = true
+				if q != o.ResourceName() && contains(claims(t, other), k) {
+					return false
 				}
 			}
-			if !taken {
-				keep = append(keep, k)
-			}
-		}
-		o.Outs = keep
-		return o
+			return true
+		})
 	}
 	keys := func(m map[string]Obj) []string {
 		ks := make([]string, 0, len(m))
@@ -204,15 +198,13 @@ func genExactCase(r *wire.Rng, n int, w *wire.Out) {
 		if free || pausedLeft == 0 {
 			return o
 		}
-		var keep []string
-		for _, k := range o.Outs {
-			if q, f := held[k]; f && q != o.ResourceName() {
-				continue
-			}
+		o = keepClaims(t, o, func(k string) bool {
+			q, f := held[k]
+			return !f || q == o.ResourceName()
+		})
+		for _, k := range claims(t, o) {
 			held[k] = o.ResourceName()
-			keep = append(keep, k)
 		}
-		o.Outs = keep
 		return o
 	}
 	for i := 0; i < nops; i++ {
@@ -225,7 +217,7 @@ func genExactCase(r *wire.Rng, n int, w *wire.Out) {
 			pausedLeft = 2 + r.Intn(5)
 			held = map[string]string{}
 			for p, o := range prim {
-				for _, k := range o.Outs {
+				for _, k := range claims(t, o) {
 					held[k] = p
 				}
 			}
@@ -279,7 +271,9 @@ func genExactCase(r *wire.Rng, n int, w *wire.Out) {
 					if r.Chance(70, 100) {
 						o := prim[k]
 						if r.Chance(50, 100) {
-							o.Val = wire.Pick(r, vals)
+							if !t.ByVal { // keyed by the value: the claim stays
+								o.Val = wire.Pick(r, vals)
+							}
 							o.Labels = genLabels(r, 60)
 						}
 						np[k] = o
@@ -297,7 +291,7 @@ func genExactCase(r *wire.Rng, n int, w *wire.Out) {
 					}
 				}
 				prim = np
-				w.Line(toks...)
+				w.Line(withDuplicate(r, toks, t.ByVal, false)...)
 			} else {
 				toks := []string{"s.reset"}
 				ns := map[string]Obj{}
@@ -320,7 +314,7 @@ func genExactCase(r *wire.Rng, n int, w *wire.Out) {
 					}
 				}
 				sec = ns
-				w.Line(toks...)
+				w.Line(withDuplicate(r, toks, false, false)...)
 			}
 		default:
 			w.Line("lookup", wire.Pick(r, nss))
